@@ -227,13 +227,6 @@ fn pad_stub<'a: 'a>(f: &mut std::fmt::Formatter<'a>, s: &str) -> std::fmt::Resul
     f.write_str(s)
 }
 
-#[cfg(not(test))]
-fn vtrace_dbg() {}
-#[cfg(test)]
-fn vtrace_dbg() {
-    vtrace("{\"kind\":\"c12dbg\"}".to_string());
-}
-
 /// `{:?}` (and `{:#?}`) of a session in every INV state of the given id kind: the real manual Debug
 /// impl of `Session`, the derived ones of `ServerState` / `ClientState` / `SessionConfig` /
 /// `SessionStore` and the real core::fmt run; the id (old, current or fresh) is never rendered and
@@ -241,20 +234,14 @@ fn vtrace_dbg() {
 fn debug_body(only: IdK, pretty: bool) -> usize {
     // configuration and remaining ttl are concrete: they do not decide what is printed about the id,
     // and formatting symbolic integers / the f32 threshold is beyond CBMC
+    // redaction must hold in every representable state, whether or not the invariant holds and whatever
+    // the store contains: the store is empty and INV is not assumed (a superset of the reachable states);
+    // map contents are empty (the map shim prints nothing, values cannot carry an id)
     let mut sh = any_shape_k(Some(only));
     sh.rem_ttl = 7;
-    let db = any_db();
-    {
-        let mut g = db.borrow_mut();
-        let mut i = 0;
-        while i < 4 {
-            if g.recs[i].present {
-                g.recs[i].ttl = 7;
-            }
-            i += 1;
-        }
-    }
-    nd::assume(inv(&sh, &db.borrow()));
+    sh.smap = EMPTY;
+    sh.cmap = EMPTY;
+    let db: &'static RefCell<Db> = Box::leak(Box::new(RefCell::new(Db { recs: [NOREC; 4], calls: 0, expire_o_now: false })));
     let mut st = SessionStateConfig::default();
     st.ttl_extension_threshold = None;
     let cfg = leak_config(st, SessionCookieConfig::default());
@@ -263,7 +250,7 @@ fn debug_body(only: IdK, pretty: bool) -> usize {
     let db0 = db.borrow().recs;
     let w = World { raced: false, sh, db, store, cfg, allow, model: abs(&sh), db0 };
     vtrace_world(&w);
-    vtrace_dbg();
+    vtrace_op("debug", 0, NONE);
     let s = build(&w.sh, w.store, w.cfg);
     let mut out = Sink { marker_seen: false, bytes: 0 };
     unsafe {
@@ -280,8 +267,8 @@ fn debug_body(only: IdK, pretty: bool) -> usize {
 }
 
 // @tier quick
-// @obligation format!(\"{:?}\", session) for every INV state of a session known under its id or freshly created (all server/client state kinds, map contents, invalidated or not): the real Debug impl of Session and the derived ones of its fields run through the real core::fmt; no session id is rendered into the output and none is read while formatting
-// @bounds session state as C11 (keys {a,b}, 3 values, all state kinds); configuration and remaining ttl concrete (default config, no ttl threshold, 7 s)
+// @obligation format!(\"{:?}\", session) for every state of a session known under its id or freshly created (all server/client state kinds, invalidated or not): the real Debug impl of Session and the derived ones of its fields run through the real core::fmt; no session id is rendered into the output and none is read while formatting
+// @bounds every id kind x server-state kind x client-state kind x invalidated (INV not assumed: a superset of the reachable states); empty maps and store; configuration and remaining ttl concrete (default config, no ttl threshold, 7 s)
 // @functions <Session as Debug>::fmt, <ServerState as Debug>::fmt, <ClientState as Debug>::fmt, <InvalidationFlag as Debug>::fmt, <SessionConfig as Debug>::fmt, <SessionStore as Debug>::fmt
 // @timeout 1500
 // @solver default
